@@ -281,6 +281,9 @@ vq!(QStr {
     both(String): [min_length = 2, max_length = 8, chars_max_length = 4, regex = "^a"],
     ostr(Option<String>): [max_length = 3, chars_min_length = 2],
     mustr(MaybeUndefined<String>): [min_length = 2],
+    cmin4(String): [chars_min_length = 4], cmin6(String): [chars_min_length = 6], cmax4(String): [chars_max_length = 4],
+    minlen8(String): [min_length = 8], maxlen8(String): [max_length = 8], cmin1(String): [chars_min_length = 1],
+    allfour(String): [min_length = 4, max_length = 12, chars_min_length = 4, chars_max_length = 6],
 });
 
 vq!(QList {
@@ -294,6 +297,9 @@ vq!(QList {
     lmul(Vec<u64>): [list, multiple_of = 4, max_items = 4],
     lostr(Vec<Option<String>>): [list, min_length = 1, min_items = 1, max_items = 3],
     nolist(Option<Vec<i32>>): [min_items = 1, max_items = 2],
+    lcmin4(Vec<String>): [list, chars_min_length = 4], lcmax4(Vec<String>): [list, chars_max_length = 4],
+    lminmax(Vec<String>): [list, min_length = 4, max_length = 9],
+    locmin(Option<Vec<Option<String>>>): [list, chars_min_length = 5, max_length = 16],
 });
 
 vq!(QWrap {
@@ -314,9 +320,26 @@ struct Inp {
     #[graphql(validator(multiple_of = 2))]
     d: Option<f64>,
 }
+#[derive(InputObject)]
+struct SInp {
+    #[graphql(validator(chars_min_length = 4))]
+    p: String,
+    #[graphql(validator(min_length = 4))]
+    q: String,
+    #[graphql(validator(chars_max_length = 4))]
+    r: String,
+    #[graphql(validator(max_length = 8))]
+    s: String,
+    #[graphql(validator(list, chars_min_length = 4, chars_max_length = 5))]
+    l: Option<Vec<String>>,
+}
 struct QInp;
 #[Object]
 impl QInp {
+    async fn sinp(&self, v: SInp) -> bool {
+        let _ = &v;
+        ran()
+    }
     async fn inp(&self, v: Inp) -> bool {
         let _ = &v;
         ran()
@@ -574,6 +597,99 @@ fn special_strings() -> Vec<String> {
     .collect()
 }
 
+/// Strings around a length bound `b`: uniform 1-, 2-, 3- and 4-byte scalars and
+/// mixtures, with char counts b-1, b, b+1 and byte lengths straddling b, 2b, 3b, 4b.
+fn string_family(b: u64) -> Vec<String> {
+    fn push(out: &mut Vec<String>, s: String) {
+        if s.chars().count() <= 48 && !out.contains(&s) {
+            out.push(s);
+        }
+    }
+    let ch = ['a', '\u{e9}', '\u{4f60}', '\u{1f600}'];
+    let b = b as i64;
+    let mut out: Vec<String> = vec![];
+    for (wi, c) in ch.iter().enumerate() {
+        let w = wi as i64 + 1;
+        let mut counts = vec![b - 1, b, b + 1];
+        for k in 1..=4 {
+            let base = (k * b + w - 1) / w;
+            counts.extend([base - 1, base, base + 1]);
+        }
+        for n in counts {
+            if n >= 0 {
+                push(&mut out, std::iter::repeat(*c).take(n as usize).collect());
+            }
+        }
+    }
+    for n in [b - 1, b, b + 1] {
+        if n < 0 {
+            continue;
+        }
+        for pat in [[0usize, 3, 1, 2], [3, 3, 0, 3], [0, 0, 3, 0], [2, 3, 2, 3], [1, 1, 2, 3]] {
+            push(&mut out, (0..n as usize).map(|i| ch[pat[i % 4]]).collect());
+        }
+    }
+    for k in 1..=4 {
+        for d in [-1, 0, 1] {
+            let t = k * b + d;
+            if t < 0 {
+                continue;
+            }
+            let mut s1 = String::new();
+            for _ in 0..t / 4 {
+                s1.push(ch[3]);
+            }
+            for _ in 0..t % 4 {
+                s1.push('a');
+            }
+            push(&mut out, s1);
+            let mut s2 = String::new();
+            let mut r = t;
+            while r >= 3 {
+                s2.push(ch[2]);
+                r -= 3;
+            }
+            if r == 2 {
+                s2.push(ch[1]);
+            } else if r == 1 {
+                s2.push('a');
+            }
+            push(&mut out, s2);
+        }
+    }
+    out
+}
+
+fn len_bounds(cfg: &Cfg) -> Vec<u64> {
+    let mut v = vec![];
+    for k in &cfg.kinds {
+        if let VK::Len(_, n) = k {
+            if !v.contains(n) {
+                v.push(*n);
+            }
+        }
+    }
+    v
+}
+
+/// the fixed string corpus of a field: the families of its bounds, then the special strings
+fn string_corpus(cfg: &Cfg) -> Vec<String> {
+    let mut out: Vec<String> = vec!["\u{1f600}\u{1f600}\u{1f600}".to_string()];
+    for b in len_bounds(cfg) {
+        for s in string_family(b) {
+            if !out.contains(&s) {
+                out.push(s);
+            }
+        }
+    }
+    for s in special_strings() {
+        if !out.contains(&s) {
+            out.push(s);
+        }
+    }
+    out
+}
+
 fn values_for(t: &Target, fi: &FieldInfo, cfg: &Cfg, r: &mut Rng, corpus: bool) -> Vec<Option<ConstValue>> {
     let base = fi.ty.trim_matches(|c| c == '[' || c == ']' || c == '!').to_string();
     let is_list = fi.ty.starts_with('[');
@@ -584,13 +700,11 @@ fn values_for(t: &Target, fi: &FieldInfo, cfg: &Cfg, r: &mut Rng, corpus: bool) 
             let sp = special_strings();
             return Some(ConstValue::String(match corpus_ix {
                 Some(i) if i < sp.len() => sp[i].clone(),
-                _ => {
-                    if r.chance(1, 3) {
-                        r.pick(&sp).clone()
-                    } else {
-                        rand_string(r)
-                    }
-                }
+                _ => match r.below(3) {
+                    0 => r.pick(&sp).clone(),
+                    1 => r.pick(&string_corpus(cfg)).clone(),
+                    _ => rand_string(r),
+                },
             }));
         }
         let (ni, nf) = near_bounds(cfg);
@@ -619,7 +733,29 @@ fn values_for(t: &Target, fi: &FieldInfo, cfg: &Cfg, r: &mut Rng, corpus: bool) 
     };
     let _ = t;
     let mut out = vec![];
-    if corpus {
+    if corpus && base == "String" {
+        let pool = string_corpus(cfg);
+        if is_list {
+            out.push(Some(ConstValue::List(vec![])));
+            for (i, x) in pool.iter().enumerate() {
+                out.push(Some(ConstValue::List(vec![ConstValue::String(x.clone())])));
+                if i % 3 == 0 {
+                    out.push(Some(ConstValue::List(vec![ConstValue::String("abcd".into()), ConstValue::String(x.clone())])));
+                }
+                if i % 11 == 0 {
+                    out.push(Some(ConstValue::List(vec![ConstValue::String(x.clone()), ConstValue::String("ab".into()), ConstValue::String(x.clone())])));
+                }
+            }
+        } else {
+            for x in pool {
+                out.push(Some(ConstValue::String(x)));
+            }
+        }
+        if nullable {
+            out.push(Some(ConstValue::Null));
+            out.push(None);
+        }
+    } else if corpus {
         if is_list {
             // fixed list shapes
             for len in [0usize, 1, 2, 3, 4, 5] {
@@ -758,8 +894,18 @@ fn direct(out: &mut Out, r: &mut Rng) {
         }),
         14 => {
             // strings
-            let s = if r.chance(1, 2) { r.pick(&special_strings()).clone() } else { rand_string(r) };
-            let n = *r.pick(&[0u64, 1, 2, 3, 4, 5, 6, 8, 12, 20, s.len() as u64, s.chars().count() as u64, s.len() as u64 + 1, (s.len() as u64).saturating_sub(1)]);
+            let fam_b = *r.pick(&[1u64, 2, 3, 4, 5, 6, 8, 12]);
+            let s = match r.below(4) {
+                0 => r.pick(&special_strings()).clone(),
+                1 => rand_string(r),
+                _ => r.pick(&string_family(fam_b)).clone(),
+            };
+            let n = if r.chance(1, 2) {
+                fam_b
+            } else {
+                *r.pick(&[0u64, 1, 2, 3, 4, 5, 6, 8, 12, 20, s.len() as u64, s.chars().count() as u64, s.len() as u64 + 1, (s.len() as u64).saturating_sub(1),
+                          s.len() as u64 / 3, s.len() as u64 / 2, s.len() as u64 / 4, s.chars().count() as u64 + 1])
+            };
             let (k, code) = match r.below(5) {
                 0 => (VK::Len("LMaxLength", n), code_of(Some(av::max_length(&s, n as usize)))),
                 1 => (VK::Len("LMinLength", n), code_of(Some(av::min_length(&s, n as usize)))),
@@ -904,6 +1050,78 @@ fn inp_cases(out: &mut Out, r: &mut Rng, n: usize) {
     }
 }
 
+/// string validators on input-object fields: one field at a time gets a corpus string, the others stay valid
+fn sinp_cases(out: &mut Out, r: &mut Rng, random: usize) {
+    let t = target!("sinp", QInp);
+    let cfgs = [
+        ("p", parse_cfg("chars_min_length = 4"), "abcd"),
+        ("q", parse_cfg("min_length = 4"), "abcd"),
+        ("r", parse_cfg("chars_max_length = 4"), "ab"),
+        ("s", parse_cfg("max_length = 8"), "ab"),
+    ];
+    let cfg_l = parse_cfg("list, chars_min_length = 4, chars_max_length = 5");
+    let mut jobs: Vec<(usize, String)> = vec![];
+    for (i, (_, cfg, _)) in cfgs.iter().enumerate() {
+        for x in string_corpus(cfg) {
+            jobs.push((i, x));
+        }
+    }
+    for x in string_corpus(&cfg_l) {
+        jobs.push((4, x));
+    }
+    for _ in 0..random {
+        jobs.push((r.below(5), if r.chance(1, 2) { rand_string(r) } else { r.pick(&string_family(4)).clone() }));
+    }
+    for (k, (which, x)) in jobs.into_iter().enumerate() {
+        let fast = k % 2 == 0;
+        let var = (k / 2) % 2 == 0;
+        let mut obj = serde_json::json!({});
+        for (i, (name, _, dflt)) in cfgs.iter().enumerate() {
+            obj[*name] = serde_json::json!(if i == which { x.as_str() } else { *dflt });
+        }
+        if which == 4 {
+            obj["l"] = serde_json::json!(["abcd", x]);
+        } else if k % 5 == 0 {
+            obj["l"] = serde_json::Value::Null;
+        }
+        let cv = ConstValue::from_json(obj.clone()).unwrap();
+        let (query, vars) = if var {
+            ("query($v: SInp!) { sinp(v: $v) }".to_string(), Variables::from_json(serde_json::json!({ "v": obj })))
+        } else {
+            (format!("{{ sinp(v: {cv}) }}"), Variables::default())
+        };
+        let Some(Some(ConstValue::Object(eff))) = effective(&query, &vars, "v") else { continue };
+        let mut strs = vec![];
+        let mut slots = vec![];
+        let mut ok = true;
+        for (name, cfg, _) in cfgs.iter() {
+            match garg_of::<String>(eff.get(*name).cloned(), &mut strs) {
+                Some(g) => slots.push(g_slot(cfg, &g)),
+                None => ok = false,
+            }
+        }
+        match garg_of::<Option<Vec<String>>>(eff.get("l").cloned(), &mut strs) {
+            Some(g) => slots.push(g_slot(&cfg_l, &g)),
+            None => ok = false,
+        }
+        if !ok {
+            continue;
+        }
+        let (code, what) = (t.run)(fast, "sinp", &query, vars.clone());
+        writeln!(
+            out.buf,
+            "REQ\t([], {}, [{}], {}%N)\t{{\"text\":{},\"impl\":{},\"nontrivial\":{}}}",
+            g_bool(!fast),
+            slots.join("; "),
+            code,
+            jstr(&format!("[sinp {} {}] {} {}", if fast { "fast" } else { "strict" }, if var { "var" } else { "lit" }, query, serde_json::to_string(&vars).unwrap())),
+            jstr(&what),
+            code != 0
+        )
+        .unwrap();
+    }
+}
+
 fn main() {
     let a = parse_args();
     let mut rng = Rng::new(a.seed);
@@ -940,6 +1158,7 @@ fn main() {
         }
     }
     inp_cases(&mut out, &mut rng, 60);
+    sinp_cases(&mut out, &mut rng, a.n / 10);
     // random requests
     for _ in 0..a.n {
         let t = rng.pick(&targets);
